@@ -152,6 +152,10 @@ def child_env(variant='asan', logbase=None, extra=None, hashseed='0'):
         env['ASAN_SYMBOLIZER_PATH'] = shutil.which('llvm-symbolizer') or \
             '/usr/lib/llvm-14/bin/llvm-symbolizer'
     elif variant == 'tsan':
+        # the launcher is not the venv's interpreter: add its site-packages
+        import glob as _g
+        sp = _g.glob('/venv/lib/python3*/site-packages')
+        env['PYTHONPATH'] = os.pathsep.join([env['PYTHONPATH']] + sp)
         opts = 'halt_on_error=0:second_deadlock_stack=1:history_size=4'
         if logbase:
             opts += ':log_path=' + logbase
